@@ -335,8 +335,8 @@ def random_cases(ck, rng, stats, mult=1):
         cases.append(gen_random(rng, 300 + rng.below(500), 50 + rng.below(300), stats,
                                 stride=rng.choice([1, 3]), offset=rng.choice([0, 100])))
     # large
-    for _ in range(mult * ck.scale(4, 12)):
-        n = ck.scale(2000, 10000)
+    for idx in range(mult * ck.scale(4, 8)):
+        n = ck.scale(2000, 10000 if idx % 2 == 0 else 4000)
         cases.append(gen_random(rng, 3 * n, 2 * n, stats, phases=((0.6, 76), (0.4, 8))))
     return cases
 
